@@ -315,7 +315,10 @@ def main():
             continue
         technique, cat, text, note, ref = CHECKS[pid]
         if pid in EXTENSIONS:
-            text += ' Extension round (DESIGN.md 7.6): ' + EXTENSIONS[pid]['added'].replace('`', '') + '.'
+            if EXTENSIONS[pid].get('added'):
+                text += ' Extension round (DESIGN.md 7.6): ' + EXTENSIONS[pid]['added'].replace('`', '') + '.'
+            if EXTENSIONS[pid].get('round3'):
+                text += ' After the third seeding round (DESIGN.md 7.5): ' + EXTENSIONS[pid]['round3'] + '.'
             ref += ', 7.5, 7.6'
         checks.append(
             {
